@@ -204,6 +204,9 @@ def monAliasIndex (c : Cert.State) : List String :=
   (c.certifiers.filterMap (fun x => if x.alias != "" && !(c.aliasIdx.any (fun e => e.1 == x.alias && e.2 == x.addr)) then some s!"alias-not-indexed:{x.alias}:{x.addr}" else none)) ++
   (c.aliasIdx.filterMap (fun e => if c.certifiers.any (fun x => x.alias == e.1 && x.addr == e.2) then none else some s!"stale-alias-index:{e.1}:{e.2}"))
 def certifierSet (c : Cert.State) : List String := sortStrs (c.certifiers.map (fun x => x.addr ++ "|" ++ x.alias))
+/-- certificates that the module's own query paths (by id / certifier / content) failed to return -/
+def unretrievable (j : Json) : List String :=
+  (J.arrOf j "unretrievable").map (fun e => match J.arr e with | [i, how] => s!"certificate {J.int i} not retrievable {J.str how}" | _ => "?")
 def monIdsUnique (c : Cert.State) : Bool := (c.certs.map (·.id)).eraseDups.length == c.certs.length && c.certs.all (·.id < c.nextId)
 
 end Drivers.GovD
